@@ -230,7 +230,13 @@ def observe(kind, shape, chunks):
             obj.ensemble_blocks(ch).compute(scheduler="synchronous")
             made[3](obj)
         ev["members"] = [[it(v) for v in ax] for ax in axes_fn(obj)]
-        for idx, slics, blk in obj.generate_blocks(ch):
+        # the partitioned object reaches the two routes through a copy / deepcopy / pickle round trip (what dask does to ship it)
+        import zlib
+        from ..routes import reroute
+        r = zlib.crc32(json.dumps([kind, list(shape), [list(c) for c in chunks]]).encode())
+        obj_e, ev["route_eager"] = reroute(obj, r)
+        obj_l, ev["route_lazy"] = reroute(obj, r // 4)
+        for idx, slics, blk in obj_e.generate_blocks(ch):
             b = blk.item() if isinstance(blk, np.ndarray) else blk
             ev["eager"].append({"idx": [int(i) + 1 for i in idx], "axes": [[it(v) for v in ax] for ax in axes_fn(b)],
                                 "slices": [[int(s.start), int(s.stop)] for s in slics]})
@@ -242,7 +248,7 @@ def observe(kind, shape, chunks):
         maker = (KINDS1 if len(shape) == 1 else KINDS2)[kind]
         sib = maker(list(shape), 1)[0] if "v" in inspect.signature(maker).parameters else None
         if sib is not None:
-            arr, arr_sib = dask.compute(obj.ensemble_blocks(ch), sib.ensemble_blocks(ch), scheduler="synchronous")
+            arr, arr_sib = dask.compute(obj_l.ensemble_blocks(ch), sib.ensemble_blocks(ch), scheduler="synchronous")
             ev["sibling"] = {"kind": kind, "shape": list(shape), "chunks": [list(c) for c in chunks], "raised": False, "joint_sibling": True,
                              "members": [[it(v) for v in ax] for ax in axes_fn(sib)], "eager": [], "lazy": [], "product_ok": True}
             for idx, slics, blk in sib.generate_blocks(ch):
@@ -254,7 +260,7 @@ def observe(kind, shape, chunks):
                 b = b.item() if isinstance(b, np.ndarray) else b
                 ev["sibling"]["lazy"].append({"idx": [int(i) + 1 for i in idx], "axes": [[it(v) for v in ax] for ax in axes_fn(b)], "slices": []})
         else:
-            arr = obj.ensemble_blocks(ch).compute(scheduler="synchronous")
+            arr = obj_l.ensemble_blocks(ch).compute(scheduler="synchronous")
         for idx in np.ndindex(arr.shape):
             b = arr[idx]
             b = b.item() if isinstance(b, np.ndarray) else b
